@@ -8,6 +8,8 @@
 (*   owner:      drain = MDrainBegin (accepting := FALSE) ; MDrainPoll (active = 0 /\ pending = 0)           *)
 (*               stop  = drain ; MSdSet (`_shutdown` := TRUE under _mutex) ; MSdPoll ; MJoin (join what is   *)
 (*               in `_threads`) ; destroy = the destructor's phases (returns at once when already shut down) *)
+(*               restart (after a stop) = reset() ; start(): MRestartClear (`_shutdown` := FALSE under _mutex) ;    *)
+(*               MRestartOpen (`_accepting` := TRUE) ; MRestartSpawn (one per initial worker)                        *)
 (* The condition variable is abstracted: a parked worker whose predicate holds eventually proceeds (the     *)
 (* timed wait bounds the effect of a lost notification), so WTake is simply enabled when the queue is not    *)
 (* empty.  The window the code leaves between popping a task and ++_activeThreads is kept (WTake / WStart   *)
@@ -22,8 +24,15 @@ CONSTANTS Init0, MaxT, QCap,  \* initial workers, maximum workers, queue capacit
           MaxW,               \* bound on worker indices (model bound)
           SpawnReserves,      \* TRUE: the worker slot is reserved under the lock (repaired code)
           DtorJoinsAfterStop, \* TRUE: the destructor joins what is left in `_threads` even after stop() (repaired code)
-          RecheckShutdown     \* TRUE: `_shutdown` is tested under _mutex in the critical section (the code); FALSE: only on the
+          RecheckShutdown,    \* TRUE: `_shutdown` is tested under _mutex in the critical section (the code); FALSE: only on the
                               \*       lock-free fast path next to `_accepting` (self-test)
+          RestartReserves,    \* TRUE: start() takes a slot under the lock for every initial worker, like a submitter (repaired code,
+                              \*       finding F-09d); FALSE: it spawns them unconditionally - together with a submitter that is
+                              \*       adding a worker of its own the pool exceeds its maximum
+          RestartSpawnsFirst  \* FALSE: start() after reset() clears `_shutdown`, opens the pool, THEN spawns the initial workers (the
+                              \*       code); TRUE: it spawns them first (self-test: a worker that runs before the flag is cleared
+                              \*       retires, its thread object keeps its slot in `_threads`, and a pool whose initial size is its
+                              \*       maximum can never serve its queue again)
 
 W == 1..MaxW
 NoTask == 0
@@ -155,6 +164,29 @@ MJoin == /\ mpc = "join" /\ \A w \in workers : wst[w] = "exited"
                             ELSE dtorRet' = TRUE /\ UNCHANGED stopRet /\ mpc' = "done" /\ UNCHANGED mip
          /\ UNCHANGED <<tasks, pending, created, exited, wst, wtask, active, spc, sip, spawnFlag, accepted, refused, ran, fin,
                         shutdownF, accepting>>
+\* stop -> reset -> start.  reset() empties the queue and the (already joined, empty) thread map and zeroes the counters.
+RU == UNCHANGED <<tasks, pending, wtask, active, spc, sip, spawnFlag, accepted, refused, ran, fin, dtorRet>>
+NewW == created + 1
+MRestartBegin == /\ mpc = "op" /\ MOp = "restart" /\ stopRet
+                 /\ mpc' = (IF RestartSpawnsFirst THEN "rs_spawn" ELSE "rs_clear") /\ UNCHANGED mip
+                 /\ RU /\ UNCHANGED <<workers, created, exited, wst, shutdownF, accepting, stopRet>>
+\* (from here on the pool can accept again - a submitter that passed the lock-free test before the stop and was delayed until
+\* now is admitted in its critical section: the "stopped" epoch, which StopComplete speaks of, is over)
+MRestartClear == /\ mpc = "rs_clear" /\ shutdownF' = FALSE /\ stopRet' = FALSE
+                 /\ mpc' = "rs_open" /\ UNCHANGED mip
+                 /\ RU /\ UNCHANGED <<workers, created, exited, wst, accepting>>
+MRestartOpen == /\ mpc = "rs_open" /\ accepting' = TRUE /\ UNCHANGED stopRet
+                /\ (IF RestartSpawnsFirst THEN MAdvance ELSE (mpc' = "rs_spawn" /\ UNCHANGED mip))
+                /\ RU /\ UNCHANGED <<workers, created, exited, wst, shutdownF>>
+\* spawnWorker(): thread created and registered (the owner is the only spawner that does not go through a reservation)
+RestartLive == Cardinality(workers)      \* (a worker that has already retired still has its thread object in the map)
+MRestartSpawn == /\ mpc = "rs_spawn"
+                 /\ IF RestartLive < Init0 /\ NewW <= MaxW /\ (RestartReserves => Cardinality(workers) + pending < MaxT)
+                    THEN /\ workers' = workers \cup {NewW} /\ created' = created + 1
+                         /\ wst' = [wst EXCEPT ![NewW] = "wait"] /\ UNCHANGED <<mpc, mip>>
+                    ELSE /\ UNCHANGED <<workers, created, wst>>
+                         /\ (IF RestartSpawnsFirst THEN (mpc' = "rs_clear" /\ UNCHANGED mip) ELSE MAdvance)
+                 /\ RU /\ UNCHANGED <<exited, shutdownF, accepting, stopRet>>
 \* destructor: the owner destroys the pool only after its submitters are done (anything else is a caller bug)
 MDestroy == /\ mpc = "op" /\ MOp = "destroy" /\ \A s \in Subs : spc[s] = "done"
             /\ IF shutdownF
@@ -167,6 +199,7 @@ MDestroy == /\ mpc = "op" /\ MOp = "destroy" /\ \A s \in Subs : spc[s] = "done"
 Next == \/ \E s \in Subs : SChk(s) \/ SCrit(s) \/ SSpawn(s)
         \/ \E w \in W : WTake(w) \/ WStart(w) \/ WFinish(w) \/ WExitShutdown(w) \/ WIdleExit(w)
         \/ MJoinSubs \/ MDrainBegin \/ MDrainPoll \/ MStopAlreadyDraining \/ MSdSet \/ MSdPoll \/ MJoin \/ MDestroy
+        \/ MRestartBegin \/ MRestartClear \/ MRestartOpen \/ MRestartSpawn
 Spec == Init /\ [][Next]_vars
 
 \* ---- properties ---------------------------------------------------------------------------------------
